@@ -275,3 +275,42 @@ fn hot_reloading_thread(
 
     log::info!("Stopping hot-reloading");
 }
+
+/// Observation points for the verification harness (compiled only with `--cfg assets_manager_verif`).
+#[cfg(assets_manager_verif)]
+#[allow(missing_docs, missing_debug_implementations)]
+pub mod verif {
+    use super::*;
+
+    /// Receiving end of an [`EventSender`] created by [`event_pair`].
+    pub struct EventProbe(Receiver<Events>);
+
+    impl EventProbe {
+        /// Takes every event sent so far, in order, with its batching (one inner `Vec` per send).
+        pub fn drain_batches(&self) -> Vec<Vec<OwnedDirEntry>> {
+            let mut out = Vec::new();
+            while let Ok(ev) = self.0.try_recv() {
+                let mut batch = Vec::new();
+                ev.for_each(|e| batch.push(e));
+                out.push(batch);
+            }
+            out
+        }
+    }
+
+    /// An `EventSender` that is not connected to any reloader, and its receiving end.
+    pub fn event_pair() -> (EventSender, EventProbe) {
+        let (tx, rx) = channel::unbounded();
+        (EventSender(tx), EventProbe(rx))
+    }
+
+    /// The private path -> entry function of the filesystem watcher.
+    pub fn id_of_path(root: &std::path::Path, path: &std::path::Path) -> Option<OwnedDirEntry> {
+        watcher::verif_id_of_path(root, path)
+    }
+
+    /// Address of the dependency recorder installed on the calling thread (0 if none).
+    pub fn recording_ptr() -> usize {
+        records::verif_recording_ptr()
+    }
+}
